@@ -55,10 +55,16 @@ struct Plan<T: El> {
 }
 
 fn run_plan<T: FEl>(tr: &mut Trace, rng: &mut Rng, p: &Plan<T>, dense: usize, extrap: bool) {
-    let dr = real(&p.data, Lay::C);
-    let xr = real1(&p.x, Lay::C);
+    // a quarter of the builds use non-standard memory layouts of data and axis
+    let (store, dlay, xlay) = match rng.below(8) {
+        0 => (Store::View, *rng.pick(&[Lay::Rev, Lay::Perm, Lay::Strided, Lay::F]), *rng.pick(&[Lay::C, Lay::Rev, Lay::Strided])),
+        1 => (Store::Owned, *rng.pick(&[Lay::F, Lay::Perm]), Lay::C),
+        _ => (Store::Owned, Lay::C, Lay::C),
+    };
+    let dr = real(&p.data, dlay);
+    let xr = real1(&p.x, xlay);
     let dynamic = rng.below(8) == 0;
-    let cfg = Cfg1 { x: Some(&xr), data: &dr, dtag: dtag_for(p.data.ndim(), dynamic), store: Store::Owned };
+    let cfg = Cfg1 { x: Some(&xr), data: &dr, dtag: dtag_for(p.data.ndim(), dynamic), store };
     let qin = dense_queries(&p.x, dense);
     let qout = gen::queries_outside(rng, &p.x, 50.0, 6);
     let extra: Vec<(&str, String)> = p.poly.iter().map(|s| ("poly", s.clone())).collect();
@@ -181,9 +187,14 @@ fn periodic_one<T: FEl>(tr: &mut Trace, rng: &mut Rng, n: usize, trailing: &[usi
     let mut data = gen::data::<T>(rng, &shape, "uniform");
     let first = data.index_axis(ndarray::Axis(0), 0).to_owned();
     data.index_axis_mut(ndarray::Axis(0), n - 1).assign(&first);
-    let dr = real(&data, Lay::C);
+    let (store, dlay) = match rng.below(4) {
+        0 => (Store::View, *rng.pick(&[Lay::Rev, Lay::Strided, Lay::F])),
+        1 => (Store::Owned, Lay::F),
+        _ => (Store::Owned, Lay::C),
+    };
+    let dr = real(&data, dlay);
     let xr = real1(&x, Lay::C);
-    let cfg = Cfg1 { x: Some(&xr), data: &dr, dtag: dtag_for(shape.len(), false), store: Store::Owned };
+    let cfg = Cfg1 { x: Some(&xr), data: &dr, dtag: dtag_for(shape.len(), false), store };
     let lo = x[0].as_f64();
     let hi = x[n - 1].as_f64();
     let p = hi - lo;
